@@ -6,6 +6,7 @@ import (
 	"go/token"
 	"go/types"
 	"golang.org/x/tools/go/packages"
+	"hash/fnv"
 	"os"
 	"runtime"
 	"sort"
@@ -548,10 +549,21 @@ func sweep(p *check.Property, ops []mutOp) func(out *check.Outcome, m *model.Mod
 		budget := 25 * time.Minute
 		for _, op := range ops {
 			muts := op.Gen(m, scope)
+			opStart := time.Now()
+			opBudget := budget
+			if op.Exploratory {
+				// a deterministic sample keeps the tier within minutes: mutants are ranked by a hash of their identity (independent of the seed, so that the recorded floors stay comparable)
+				// and the first exploreSample are run
+				opBudget = 12 * time.Minute
+				if len(muts) > exploreSample {
+					sort.Slice(muts, func(i, j int) bool { return hashID(muts[i].ID, 0) < hashID(muts[j].ID, 0) })
+					muts = muts[:exploreSample]
+				}
+			}
 			res := sweepResult{Op: op.Name, Generated: len(muts), Exploratory: op.Exploratory}
 			// batches: no two mutants of one group, no two overlapping edits in one file
 			remaining := muts
-			for len(remaining) > 0 && time.Since(t0) < budget {
+			for len(remaining) > 0 && time.Since(t0) < budget+36*time.Minute && time.Since(opStart) < opBudget {
 				var batch, rest []mutant
 				used := map[string]bool{}
 				for _, mu := range remaining {
@@ -602,7 +614,9 @@ func sweep(p *check.Property, ops []mutOp) func(out *check.Outcome, m *model.Mod
 				}
 				results = append(results, res)
 				out.Notes = append(out.Notes, fmt.Sprintf("exploratory operator %s: %d generated, %d compiled, %d reported by this property's rules (floor %d), %d not reported (equivalent, value-level or outside this property)", op.Name, res.Generated, res.Compiled, res.Killed, res.Floor, nSurv))
-				if res.Killed < res.Floor {
+				if len(remaining) > 0 {
+					out.Notes = append(out.Notes, fmt.Sprintf("exploratory operator %s: time budget reached with %d mutants not run; floor not evaluated", op.Name, len(remaining)))
+				} else if res.Killed < res.Floor {
 					out.Broken = append(out.Broken, fmt.Sprintf("mutation sweep: operator %s: only %d mutants reported, the recorded floor is %d: a rule of this property stopped reporting mutants it used to report", op.Name, res.Killed, res.Floor))
 				}
 				out.Extra["explore_"+op.Name+"_reported"] = res.Killed
@@ -972,6 +986,15 @@ var mutIgnoreLimit = mutOp{Name: "ignore-limit", Doc: "replace the !rate.Reached
 // exploreFloors: mutants reported today by each property's own rules (property/operator), minus a margin of 10 %
 // for unrelated edits of the repository. Recomputed with `rocheck -prop <id> -tier thorough` (see the notes it prints).
 var exploreFloors = map[string]int{}
+
+// exploreSample: number of mutants run per exploratory operator and property.
+const exploreSample = 400
+
+func hashID(id string, seed int64) uint64 {
+	h := fnv.New64a()
+	fmt.Fprintf(h, "%d|%s", seed, id)
+	return h.Sum64()
+}
 
 func scopedPkgs(m *model.Model, scope map[string]bool) []*packages.Package {
 	var out []*packages.Package
